@@ -106,6 +106,10 @@ def units(prop, tier, seed):
             yield from gen
             for i in range(QUICK_HUGE // 2):
                 yield ("huge", (i, subseed(seed, prop, "huge", i)), next(order))
+            for tag, props in UNSTEER.items():
+                if prop in props:
+                    for i in range(QUICK_HRAND):
+                        yield ("hrand", (tag, subseed(seed, prop, "hrand", tag, i)), next(order))
             for i in range(QUICK_SWEEPS // 2):
                 yield ("sweep", subseed(seed, prop, "sweep", i), next(order))
             for i in range(QUICK_RANDOM // 2):
